@@ -60,7 +60,174 @@ type c11SaveCall struct {
 	active bool
 }
 
+// c11Writer counts the calls of BlockWriter.Save (the boundary at which the property is observed): one processor
+// hands its block to the writer at most once, whatever the writer then does with the call.
+type c11Writer struct {
+	isaac.BlockWriter
+	onSave func()
+}
+
+func (w *c11Writer) Save(ctx context.Context) (base.BlockMap, error) {
+	w.onSave()
+
+	return w.BlockWriter.Save(ctx)
+}
+
+// SetINITVoteproof is the first thing a save does with the writer once it has passed the once-only and the
+// manifest checks: a second call means a second save got through to the writer.
+func (w *c11Writer) SetINITVoteproof(ctx context.Context, ivp base.INITVoteproof) error {
+	w.onSave()
+
+	return w.BlockWriter.SetINITVoteproof(ctx, ivp)
+}
+
+func c11CountSaves(args *isaac.DefaultProposalProcessorArgs, onSave func()) {
+	inner := args.NewWriterFunc
+
+	args.NewWriterFunc = func(pr base.ProposalSignFact, getStatef base.GetStateFunc) (isaac.BlockWriter, error) {
+		bw, err := inner(pr, getStatef)
+		if err != nil {
+			return nil, err
+		}
+
+		return &c11Writer{BlockWriter: bw, onSave: onSave}, nil
+	}
+}
+
+// c11Direct drives one DefaultProposalProcessor directly: Process, several Save calls (with the ACCEPT majority
+// for the manifest, or for another block) and Cancel from several goroutines. The manifest is learnt beforehand from
+// a first processor over the same input, so that a Save with the matching voteproof can arrive while the proposal
+// is still being processed.
+func c11Direct(r *simkit.Run) {
+	w := prodBuildWorld(r)
+	ops := prodBuildOps(r, w)
+	cluster := &common.Cluster{Nodes: w.members, Threshold: w.threshold}
+
+	var order []int
+
+	for k := range ops {
+		if r.Chance(1, 2) {
+			order = append(order, k)
+		}
+	}
+
+	pr, opmap := prodProposal(w, ops, order)
+	ivp := prodINITVoteproof(w, pr, -1)
+
+	first := w.process(r, "first", pr, ivp, opmap, 1)
+	if first.m == nil {
+		r.Probe("direct_proposal_not_processable")
+
+		return
+	}
+
+	manifest := first.m.Hash()
+
+	saved := 0
+	matchingInFlight := 0
+	fs := &prodFS{states: map[string]base.State{}, r: r}
+
+	args := w.newProcessorArgs(r, opmap, []int64{1, 2, 8}[r.Choose(3)], fs, func() {
+		r.Checked()
+		r.Probe("block_saved")
+
+		saved++
+
+		if saved > 1 {
+			r.Fail("saved-twice", "same-processor:direct", "the processor of %s saved its block %d times", pr.Point(), saved)
+		}
+
+		if matchingInFlight == 0 {
+			r.Fail("saved-without-agreement", "newblock-mismatch:direct", "the block of %s (manifest %.12s) was saved while no Save call with an ACCEPT majority for that manifest was in flight", pr.Point(), manifest)
+		}
+	})
+
+	writerSaves := 0
+
+	c11CountSaves(args, func() {
+		writerSaves++
+
+		if writerSaves > 2 { // SetINITVoteproof + Save of the one save that is allowed
+			r.Fail("saved-twice", "second-save-reached-the-writer:direct", "the processor of %s went to its block writer with a second save (%d calls of SetINITVoteproof/Save)", pr.Point(), writerSaves)
+		}
+	})
+
+	pp, err := isaac.NewDefaultProposalProcessor(pr, w.prevManifest, args)
+	if err != nil {
+		panic(err)
+	}
+
+	r.Go("process", func() {
+		if r.Chance(1, 3) {
+			time.Sleep(time.Duration(r.Choose(20)) * time.Millisecond)
+		}
+
+		m, err := pp.Process(context.Background(), ivp)
+		r.Op("direct: Process -> manifest=%v err=%v", m != nil, err != nil)
+	})
+
+	nsavers := 2 + r.Choose(2)
+
+	for i := 0; i < nsavers; i++ {
+		i := i
+
+		r.Go(fmt.Sprintf("saver%d", i), func() {
+			if r.Chance(1, 2) {
+				time.Sleep(time.Duration(r.Choose(30)) * time.Millisecond)
+			}
+
+			nb := util.Hash(manifest)
+			matching := true
+
+			if r.Chance(1, 4) {
+				nb, matching = valuehash.RandomSHA256(), false
+			}
+
+			avp := cluster.MajorityACCEPT(pr.Point(), pr.Fact().Hash(), nb)
+
+			if matching {
+				matchingInFlight++
+			}
+
+			bm, err := pp.Save(context.Background(), avp)
+
+			if matching {
+				matchingInFlight--
+			}
+
+			r.Op("direct: saver%d Save(matching=%v) -> blockmap=%v err=%v", i, matching, bm != nil, err != nil)
+
+			if err == nil && bm != nil {
+				r.Probe("save_ok")
+			}
+		})
+	}
+
+	if r.Chance(1, 3) {
+		r.Go("canceller", func() {
+			time.Sleep(time.Duration(r.Choose(30)) * time.Millisecond)
+			r.Op("direct: Cancel")
+
+			_ = pp.Cancel()
+		})
+	}
+
+	r.Sched(simkit.SchedOpts{MaxSteps: 3000000, Stick: r.DrawStick(), MaxSim: 2 * time.Hour, Quanta: []time.Duration{time.Millisecond, 10 * time.Millisecond, 100 * time.Millisecond}})
+
+	if r.Unfinished() {
+		r.Fail("liveness", "direct", "Process/Save/Cancel calls on the processor did not all return (%d still running)", r.Live())
+	}
+
+	r.Sched(simkit.SchedOpts{MaxSteps: 100000, KeepGoing: true, MaxSim: 3 * time.Hour, Until: func() bool { return len(r.Parked()) == 0 }})
+}
+
 func c11Run(r *simkit.Run) {
+	if r.Draw("population", 0, 3) == 0 { // a quarter of the runs: one processor driven directly
+		c11Direct(r)
+
+		return
+	}
+
 	w := prodBuildWorld(r)
 	ops := prodBuildOps(r, w)
 	cluster := &common.Cluster{Nodes: w.members, Threshold: w.threshold}
@@ -169,6 +336,16 @@ func c11Run(r *simkit.Run) {
 
 				lastSaved = h
 				savedAt[h] = prop.desc
+			})
+
+			writerSaves := 0
+
+			c11CountSaves(args, func() {
+				writerSaves++
+
+				if writerSaves > 2 { // SetINITVoteproof + Save of the one save that is allowed
+					r.Fail("saved-twice", "second-save-reached-the-writer", "processor #%d of %s went to its block writer with a second save (%d calls of SetINITVoteproof/Save)", inst.id, prop.desc, writerSaves)
+				}
 			})
 
 			pp, err := isaac.NewDefaultProposalProcessor(pr, previous, args)
